@@ -4206,16 +4206,15 @@ fn get_arg_type(s: &str, quoted: bool) -> ArgType {
                 return ArgType::List;
             }
         }
-        if !c.is_ascii_digit() {
-            if c != '-' || prevc != None {
-                numeric = false;
-            }
-        }
         if numeric && c == '.' {
             if foundperiod {
                 numeric = false;
             }
             foundperiod = true
+        } else if !c.is_ascii_digit() {
+            if c != '-' || prevc != None {
+                numeric = false;
+            }
         }
         prevc = Some(c)
     }
